@@ -114,17 +114,34 @@ def canary_c18(real):
                            real.cases[1]])
 
 
+def _wk(w):
+    from contracts import pool as _cp, worker as _cw
+
+    _cp.declare(w)
+    _cw.declare(w)
+
+
+WORLD_DECLS = {"io": lambda w: __import__("contracts.io", fromlist=["declare"]).declare(w),
+               "mc": lambda w: __import__("contracts.multichannel", fromlist=["declare"]).declare(w),
+               "wk": _wk}
+EXECTASK = f"wk::{GB}:WorkerGateway.executetask"
+
 SPECS = {
     "C02": dict(
         title="each CHANNEL_DATA frame is decoded once and goes to exactly the callback or queue registered for its id, behind everything delivered earlier; other channels are untouched (frame); send emits exactly one frame or nothing",
-        targets=[C + "send", C + "receive", C + "__init__", C + "setcallback", F + "new", F + "_local_receive", MRC, GBR], scenarios=["c02_order", "c02_dropped_callback", "c10_callback"],
+        targets=[C + "send", C + "receive", C + "__init__", C + "setcallback", F + "new", F + "_local_receive", MRC, GBR,
+                 # "send emits exactly one frame": the frame is contiguous on the connection only if every writer holds the send lock (contracts of C08)
+                 f"io::{GB}:BaseGateway._send", f"io::{GB}:Message.to_io"], scenarios=["c02_order", "c02_dropped_callback", "c10_callback"],
+        extra_worlds="io",
         heavy={F + "_local_receive": 6, GBR: 8, MRC: 4, C + "setcallback": 4},
         extra=["items sent before the peer holds the channel object are dropped by _local_receive (`pass  # drop data`): the contract states it (unknown id: nothing changes)"],
         canary=(F + "_local_receive", "item-queued-at-the-head", canary_c02)),
     "C03": dict(
         title="close: one close frame after the data (none if the peer closed first), ENDMARKER behind pending items, both tables forget the id; receive re-queues ENDMARKER and raises EOFError again and again; closing side state; second close is a no-op",
-        targets=[C + "close", C + "receive", C + "waitclose", C + "isclosed", C + "send", C + "_getremoteerror", F + "_local_close", F + "_no_longer_opened", C + "__del__"], scenarios=["c03_close"],
-        heavy={C + "close": 4, F + "_local_close": 4},
+        targets=[C + "close", C + "receive", C + "waitclose", C + "isclosed", C + "send", C + "_getremoteerror", F + "_local_close", F + "_no_longer_opened", C + "__del__",
+                 EXECTASK],    # the automatic close at the end of a remote_exec body: exactly one close call on every exit
+        scenarios=["c03_close"], extra_worlds="wk",
+        heavy={C + "close": 4, F + "_local_close": 4, EXECTASK: 8},
         extra=["Channel.__del__: what it tells the peer is under contract; WHEN it runs (reference counting / GC) is the interpreter's business"],
         canary=(C + "receive", "endmarker-consumed-not-requeued", canary_c03)),
     "C04": dict(
@@ -139,10 +156,12 @@ SPECS = {
         canary=(F + "_finished_receiving", "factory-not-marked-finished", canary_c04)),
     "C07": dict(
         title="a raising callback: the item was passed once, one CHANNEL_CLOSE_ERROR frame goes to the peer, a RemoteError (never another type) is recorded on the live channel, the id is forgotten, and no Exception escapes the handler (the receiver loop goes on); errors are handed out FIFO, each once",
-        targets=[F + "_local_receive", F + "_local_close", F + "_no_longer_opened", C + "_getremoteerror", C + "receive", C + "waitclose", C + "close", MRC, GBR], scenarios=["c07_errors"],
-        heavy={F + "_local_receive": 6, GBR: 8, MRC: 4, C + "close": 3},
+        targets=[F + "_local_receive", F + "_local_close", F + "_no_longer_opened", C + "_getremoteerror", C + "receive", C + "waitclose", C + "close", MRC, GBR,
+                 EXECTASK],    # a raising remote body: the channel is closed with the formatted error text (any exception but EOFError/KeyboardInterrupt)
+        scenarios=["c07_errors"], extra_worlds="wk",
+        heavy={F + "_local_receive": 6, GBR: 8, MRC: 4, C + "close": 3, EXECTASK: 8},
         extra=["callbacks raising SystemExit/KeyboardInterrupt/other non-Exception BaseExceptions propagate out of the receiver by the code's evident intent (`except Exception`): the callback-interrupt case",
-               "executetask's exception arm (remote body raises) is decided in C14/C06"],
+               "executetask's exception arm (remote body raises): under contract in world wk; the text itself (_geterrortext: type, message, traceback) is the traceback module's"],
         canary=(F + "_local_receive", "raising-callback-leaves-the-id-registered", canary_c07)),
     "C10": dict(
         title="setcallback drains the queue in order under the receiver lock (inductive invariant: delivered prefix + remaining queue == old queue), registers only an open channel, re-queues ENDMARKER; _local_receive passes each later item once; the endmarker goes out exactly when a record is popped",
@@ -154,8 +173,10 @@ SPECS = {
         canary=(C + "setcallback", "receive-still-possible-after-setcallback", canary_c10)),
     "C18": dict(
         title="new(): fresh ids step by 2 from the start count (parity invariant), an existing registration is never replaced; Channel.__init__; close/_local_close/_no_longer_opened/_finished_receiving remove the id from both tables",
-        targets=[F + "new", C + "__init__", C + "close", F + "_no_longer_opened", F + "_local_close", F + "_finished_receiving", C + "__del__"], scenarios=["c18_ids"],
-        heavy={C + "close": 3, F + "_local_close": 3, F + "_finished_receiving": 4},
+        targets=[F + "new", C + "__init__", C + "close", F + "_no_longer_opened", F + "_local_close", F + "_finished_receiving", C + "__del__",
+                 F + "_local_receive"],   # a raising callback of a collected channel: the id leaves the callback table on that path too
+        scenarios=["c18_ids"],
+        heavy={C + "close": 3, F + "_local_close": 3, F + "_finished_receiving": 4, F + "_local_receive": 6},
         extra=["WeakValueDictionary / reference counting; growth over thousands of cycles only in the native scenario (200 cycles)", "save_Channel / load_channel are under contract in C01/C13"],
         canary=(F + "new", "fresh-ids-step-by-one", canary_c18)),
 }
@@ -173,17 +194,12 @@ def make(pid):
         scenarios = sp["scenarios"]
         assumptions = COMMON_ASSUMPTIONS
         not_decided = NOT_DECIDED_COMMON + sp["extra"]
-        if sp.get("extra_worlds") == "io":
-            from contracts import io as _cio
-
-            extra_worlds = {"io": _cio.declare}
-        if sp.get("extra_worlds") == "mc":
-            from contracts import multichannel as _cmc
-
-            extra_worlds = {"mc": _cmc.declare}
+        extra_worlds = {n: WORLD_DECLS[n] for n in (sp.get("extra_worlds") or "").split(",") if n}
+        if not extra_worlds:
+            del extra_worlds
 
         def lemmas(self, w):
-            if sp.get("extra_worlds") == "io":
+            if "io" in (sp.get("extra_worlds") or "").split(","):
                 from contracts import io as _cio
 
                 return [l for l in _cio.lemmas(w) if "prefix" in l[0]]
